@@ -233,7 +233,10 @@ def processEvs (fwd : Bool) (xold x : α) (ip : Option (Interp α)) (s : St α) 
 
 /-- entries consumed by the initial callback: `while i < len && |t_eval[i] − x| ≤ tol` -/
 def takeInitial (tol x : α) (te : Array α) (idx : Nat) : List α :=
-  (te.toList.drop idx).takeWhile fun t => decide (Num.abs (t - x) ≤ tol)
+  -- `t_eval[i] == *x`: only requested times equal to x0 carry the initial state (any other one, however close, is sampled
+  -- through the interpolant of the step that contains it)
+  let _ := tol
+  (te.toList.drop idx).takeWhile fun t => Num.eqb t x
 
 def sampleInitial (s : St α) (te : Array α) (x : α) (y : Array α) : St α :=
   let taken := takeInitial s.tol x te s.nextIdx
